@@ -60,15 +60,17 @@ def _inert(draw, C, S):
     if S['t'] == 'leaf':
         kinds.append('toeplitz')
     k = draw(st.sampled_from(kinds))
+    # parameters in the narrowest dtype of the structure: the operator keeps every leaf's dtype (it is square)
+    vd = 'float16' if any(dt_ == 'float16' for _, dt_ in St.leaves(S)) else 'float32'
     if k == 'dense':
         r = gen.g_dense(draw, C.G, S, square=True)
-        r['vdtype'] = 'float32'
+        r['vdtype'] = vd
     elif k == 'diagn':
         r = gen.g_diag(draw, C.G, S, zeros=False)
-        r['vdtype'] = 'float32'
+        r['vdtype'] = vd
     else:
         r = gen.g_toeplitz(draw, C.G, S)
-        r['vdtype'] = 'float32'
+        r['vdtype'] = vd
     return C.define(r)
 
 
@@ -85,7 +87,8 @@ def _angles(draw, S):
 
 
 def _rot(draw, C, S):
-    return C.define({'k': 'rot', 'in': S, 'angles': _angles(draw, S), 'vdtype': 'float32'})
+    vd = 'float16' if any(dt_ == 'float16' for _, dt_ in St.leaves(S)) else 'float32'
+    return C.define({'k': 'rot', 'in': S, 'angles': _angles(draw, S), 'vdtype': vd})
 
 
 def pattern(draw, C, S, allow_pol=False):
@@ -288,6 +291,16 @@ def chain_case(draw, tier, mode):
         S = St.leaf(shape, 'float32')
     else:
         S = St.stokes(draw(st.sampled_from(['QU', 'IQU', 'IQUV', 'QU'])), [draw(st.integers(1, 3))], 'float32')
+        if draw(st.integers(0, 4)) == 0:
+            # components of different precision (same shapes): the documented patterns do not depend on the dtypes
+            S['dtypes'] = [draw(st.sampled_from(['float32', 'float16'])) for _ in S['kind']]
+            if len(set(S['dtypes'])) == 1:
+                S['dtypes'][0] = 'float16' if S['dtypes'][0] == 'float32' else 'float32'
+    narrow_in = family == 'arr' and len(shape) == 1 and shape[0] >= 3 and draw(st.integers(0, 4)) == 0
+    if narrow_in:
+        # half-precision data: the chain will end (output side) in a wider-typed operator with FEWER elements but MORE
+        # bytes than the input: "the side with fewer elements" is about elements
+        S = St.leaf(shape, 'float16')
     C = Chain(mode, S, family)
     npat = draw(st.integers(1, 4 if tier == 'quick' else 6))
     items = _ctx(draw, C, S, 0, 3)
@@ -364,6 +377,17 @@ def chain_case(draw, tier, mode):
         run.append({'tok': ['bcol', [[['A', _inert(draw, C, S)]] for _ in range(k)], cont]})
         items = run + items
         names.append('blocks_left_end')
+    if narrow_in and not any(n_ in names for n_ in ('polhwp', 'blocks_left_end')):
+        n_ = shape[0]
+        m_ = n_ - 1  # fewer elements, but 4 m > 2 n bytes
+        vals_ = [[float(draw(st.integers(-2, 2))) for _ in range(n_)] for _ in range(m_)]
+        i_ = C.define({'k': 'dense', 'in': S, 'blocks': {'shared': vals_}, 'subscripts': 'ij,j->i', 'vdtype': 'float32'})
+        items = [{'tok': ['A', i_]}] + items
+        if not any(it['tok'][0] == 'hom' for it in items):
+            items.insert(draw(st.integers(1, len(items))), {'tok': ['hom', draw(st.sampled_from([2.0, -3.0, 0.5]))]})
+        names.append('wider_output_with_fewer_elements')
+    if S.get('dtypes'):
+        names.append('mixed_precision_components')
     return {'S': S, 'defs': C.G.defs, 'items': [it['tok'] for it in items], 'names': names}
 
 
